@@ -1,0 +1,60 @@
+//go:build verif
+
+// Contracts for govc (/verif): C32 — the address codec (Address.String / NewAddressFromString). Comment-only file.
+//
+// Byte strings are abstract values: seq(x) is the byte string held by x, cat / sub / blen its algebra (T-BYTES), strseq(s) the bytes
+// of a Go string. base58.EncodeOf / base58.DecodeOf are the (uninterpreted) results of base58.Encode / base58.Decode; that they are
+// inverse to each other is ASSUMED in util/base58/zz_contracts_c32_verif.go. Sha3Of, ValidPointBytes: package crypto.
+
+package common
+
+//@ -- the printed form of the address with public spend key S and public view key V (32-byte strings):
+//@ --   "XIN" + base58( S ++ V ++ first 4 bytes of sha3-256("XIN" ++ S ++ V) )
+//@ spec AddrChecksum(S mathint, V mathint) mathint = sub(seq(crypto.Sha3Of(cat(strseq(MainAddressPrefix), cat(S, V)))), 0, 4)
+//@ spec AddrPayload(S mathint, V mathint) mathint = cat(cat(S, V), AddrChecksum(S, V))
+//@ spec AddrString(S mathint, V mathint) string = MainAddressPrefix + base58.EncodeOf(AddrPayload(S, V))
+
+//@ -- what NewAddressFromString accepts, as a predicate of the string: the network prefix, then base58 of a 68-byte payload D whose last
+//@ -- 4 bytes are the checksum of its first 64, and whose two 32-byte halves both pass Key.CheckKey (decodePoint)
+//@ spec AddrPayloadOK(D mathint) bool = blen(D) == 68 && sub(D, 64, 68) == AddrChecksum(sub(D, 0, 32), sub(D, 32, 64)) &&
+//@   crypto.ValidPointBytes(sub(D, 0, 32)) && crypto.ValidPointBytes(sub(D, 32, 64))
+//@ spec AddrAccepts(s string) bool = strings.HasPrefix(s, MainAddressPrefix) && AddrPayloadOK(base58.DecodeOf(s[3:]))
+
+//@ -- trustpre: base58.Decode `requires [physical] len(b) <= 2^40` (no string of a terabyte exists; it only excludes integer overflow of a
+//@ -- buffer size inside Decode) is ASSUMED at the call here rather than imposed on the callers of NewAddressFromString.
+//@ func NewAddressFromString(s)
+//@   property C32
+//@   trustpre util/base58.Decode
+//@   modifies nothing
+//@   ensures [accept-iff] err == nil <==> AddrAccepts(s)
+//@   ensures [keys] err == nil ==> seq(result0.PublicSpendKey) == sub(base58.DecodeOf(s[3:]), 0, 32) && seq(result0.PublicViewKey) == sub(base58.DecodeOf(s[3:]), 32, 64)
+//@   ensures [valid-keys] err == nil ==> result0.PublicSpendKey.CheckKey() && result0.PublicViewKey.CheckKey()
+//@   ensures [no-private-keys] !result0.PrivateSpendKey.HasValue() && !result0.PrivateViewKey.HasValue()
+//@   ensures [prints-back] err == nil ==> result0.String() == s
+
+//@ -- print, then parse: for 32-byte strings S, V that are valid points (what CheckKey tests), the printed address AddrString(S, V)
+//@ -- (= Address.String(), postcondition [format]) is accepted by NewAddressFromString ([accept-iff]) and the keys it returns ([keys])
+//@ -- are S and V again. Relative to the ASSUMED base58 law Decode(Encode(b)) == b.
+//@ lemma AddressPrintParse(S mathint, V mathint)
+//@   property C32
+//@   requires blen(S) == 32 && blen(V) == 32 && crypto.ValidPointBytes(S) && crypto.ValidPointBytes(V)
+//@   ensures [accepted] AddrAccepts(AddrString(S, V))
+//@   ensures [same-keys] let t == AddrString(S, V) in sub(base58.DecodeOf(t[3:]), 0, 32) == S && sub(base58.DecodeOf(t[3:]), 32, 64) == V
+
+// ───────────── JSON form of an address: the quoted printed form ─────────────
+//@ func (a Address) MarshalJSON
+//@   property C32
+//@   modifies nothing
+//@   ensures [json] err == nil && bytestr(result0) == crypto.QuoteOf(AddrString(seq(a.PublicSpendKey), seq(a.PublicViewKey)))
+
+//@ -- accepts exactly the quoted strings whose content NewAddressFromString accepts; the four keys are then overwritten with the
+//@ -- parsed public keys and zero private keys; on error the receiver is unchanged
+//@ func (a *Address) UnmarshalJSON(b)
+//@   property C32
+//@   requires a != nil
+//@   modifies a.PrivateSpendKey, a.PrivateViewKey, a.PublicSpendKey, a.PublicViewKey
+//@   ensures [accept-iff] err == nil <==> crypto.UnquoteOK(old(bytestr(b))) && AddrAccepts(crypto.UnquoteOf(old(bytestr(b))))
+//@   ensures [keys] err == nil ==> seq(a.PublicSpendKey) == sub(base58.DecodeOf(crypto.UnquoteOf(old(bytestr(b)))[3:]), 0, 32) &&
+//@     seq(a.PublicViewKey) == sub(base58.DecodeOf(crypto.UnquoteOf(old(bytestr(b)))[3:]), 32, 64)
+//@   ensures [no-private-keys] err == nil ==> !a.PrivateSpendKey.HasValue() && !a.PrivateViewKey.HasValue()
+//@   ensures [unchanged-on-error] err != nil ==> *a == old(*a)
